@@ -2,16 +2,16 @@ SPECIFICATION GenSpec
 CONSTANTS
  Threads = {1,2,3,4,5,6}
  Main = 1
- MaxNodes = 5
+ MaxNodes = 6
  MaxOps = 1
  FixUninit = TRUE
  FixDetector = TRUE
  FixNifty = TRUE
  AtomicAdopt = TRUE
  RefreshExpected = TRUE
- Free = 1
+ Free = 0
  Getters = {2,3,4}
- Releasers = {}
+ Releasers = {5}
 VIEW GenView
 INVARIANT NoShare
 INVARIANT ListComplete
